@@ -856,6 +856,7 @@ func (m MemoryFeatureSource) Read(options ReadOptions, emit Emit, ctx context.Co
 	ctx, cancel := context.WithCancel(ctx)
 	var wg sync.WaitGroup
 	var cause error
+	var causeLock sync.Mutex
 	feed := func(goroutine int) {
 		defer wg.Done()
 		for {
@@ -865,7 +866,9 @@ func (m MemoryFeatureSource) Read(options ReadOptions, emit Emit, ctx context.Co
 			case f, ok := <-c:
 				if ok {
 					if err := emit(f, goroutine); err != nil {
+						causeLock.Lock()
 						cause = err
+						causeLock.Unlock()
 						cancel()
 					}
 				} else {
